@@ -129,6 +129,11 @@ class Spectrum:
     @value.setter
     def value(self, value):
         value = np.asarray(value)
+        if value.dtype.kind == 'f' and value.dtype.itemsize < 8:
+            # like the wavelengths, values are held in double precision: unit
+            # conversions and arithmetic with scalars would otherwise run
+            # (and overflow) in single or half precision
+            value = value.astype(float)
         self._value = value
 
     @property
